@@ -368,6 +368,12 @@ func runCase(rep *core.Report, c tcase, l sim.Layout, seed int64) {
 		if at != bt+1 {
 			rep.Violate("C16.one-new-transaction", "txid-delta/"+shape, detail, map[string]any{"case": c})
 		}
+		// C09 on imports: the log stays one verified chain ending at the new position (primary and replica)
+		rep.Eval(1)
+		if probs := sim.ChainProblems(n1.DBDir("db"), uint64(db.Pos().TXID), uint64(db.Pos().PostApplyChecksum)); len(probs) > 0 {
+			detail["chain_problems"] = probs
+			rep.Violate("C16.log-is-one-chain", "chain-after-import/"+shape, detail, map[string]any{"case": c})
+		}
 		if werr := cl.WaitPos("n2", "db", db.Pos(), 30*time.Second); werr != nil {
 			detail["replica"] = werr.Error()
 			rep.Violate("C16.replicas-reach-identical-image", "replica-behind/"+shape, detail, map[string]any{"case": c})
@@ -400,6 +406,13 @@ func runCase(rep *core.Report, c tcase, l sim.Layout, seed int64) {
 		// the running node (no restart in between) must not have changed either
 		detail["live_before"], detail["live_after"] = liveBefore, liveAfter
 		rep.Violate("C16.failed-import-changes-nothing", "changed-live/"+shape, detail, map[string]any{"case": c})
+	}
+	if db := n1.Store.DB("db"); db != nil && len(n1.Exits()) == 0 {
+		rep.Eval(1)
+		if probs := sim.ChainProblems(n1.DBDir("db"), uint64(db.Pos().TXID), uint64(db.Pos().PostApplyChecksum)); len(probs) > 0 {
+			detail["chain_problems"] = probs
+			rep.Violate("C16.log-is-one-chain", "chain-after-failed-import/"+shape, detail, map[string]any{"case": c})
+		}
 	}
 	if c.Result != "error" {
 		rep.Nonconf("%s: model predicts %s, real import failed: %v", c.key(), c.Result, ierr)
